@@ -2,3 +2,7 @@ import Proofs.CursorLemmas
 import Proofs.ImplV2
 import Proofs.Waveform
 import Proofs.Beatgrid
+import Proofs.TracksV2
+import Proofs.TracksV2Main
+import Proofs.TracksV2Idem
+import Proofs.TracksV2Db
